@@ -266,7 +266,8 @@ Val(p) ==
                    /\ Finish(p, "pre2", Res("HIT", Seen(c).t, Seen(c).v), me)
                    /\ used' = used \cup (IF sh.beacon[k] # x THEN {"Stale"} ELSE {})
               ELSE IF sh.beacon[k] # x THEN Retry(p, me)
-              ELSE /\ sh' = [sh EXCEPT !.content[x] = None, !.beacon[k] = 0]
+              ELSE \E fl \in (IF "Stale" \in Dev THEN FlushChoices(sh) ELSE {TRUE}) :
+                   /\ sh' = [sh EXCEPT !.content[x] = IF fl THEN None ELSE @, !.beacon[k] = 0]
                    /\ Finish(p, "rel", Res("HIT", Seen(c).t, Seen(c).v), me)
                    /\ UNCHANGED used
        [] OTHER ->
